@@ -73,12 +73,22 @@ type recorder struct {
 }
 
 type rbacSpec struct {
-	Mode string `json:"mode"` // deny | ns | all
+	Mode string `json:"mode"` // deny | ns (every verb in Ns) | all | ro (read-only member of Ns: get/list/watch only)
 	Ns   string `json:"ns,omitempty"`
 }
 
-func (r rbacSpec) allows(ns string) bool {
-	return r.Mode == "all" || (r.Mode == "ns" && r.Ns == ns)
+func readVerb(v string) bool { return v == "get" || v == "list" || v == "watch" }
+
+func (r rbacSpec) allows(verb, ns string) bool {
+	switch r.Mode {
+	case "all":
+		return true
+	case "ns":
+		return r.Ns == ns
+	case "ro":
+		return r.Ns == ns && readVerb(verb)
+	}
+	return false
 }
 
 var scheme = func() *runtime.Scheme {
@@ -183,7 +193,7 @@ func buildWorld(w worldSpec, rec *recorder) client.Client {
 			if sar, ok := obj.(*authv1.SubjectAccessReview); ok {
 				// the RBAC oracle answers here (authzn.go: client.Create(ctx, sar))
 				ra := sar.Spec.ResourceAttributes
-				sar.Status.Allowed = rec.rbac.allows(ra.Namespace)
+				sar.Status.Allowed = rec.rbac.allows(ra.Verb, ra.Namespace)
 				res := ra.Resource
 				if ra.Subresource != "" {
 					res += "/" + ra.Subresource
